@@ -111,7 +111,7 @@ def seeds_for(rng, label, scheme):
 
 
 def correspondence(ctx):
-    n = 6000 if ctx.thorough else 1200
+    n = 25000 if ctx.thorough else 1200
     for mod, stream in (("corr_textvers", "vers-text-model"), ("corr_npm", "npm-model"), ("corr_gempypi", "gem-pypi-model"),
                         ("corr_mavenconan", "maven-nuget-conan-model"), ("corr_advisory", "advisory-model")):
         T.run_corr(ctx, mod, stream, n, in_domain=_internal_in_case, spec="declared errors only")
@@ -138,7 +138,7 @@ def _internal_in_case(d):
 
 
 def _fuzz(ctx):
-    per = 1500 if ctx.thorough else 250
+    per = 5000 if ctx.thorough else 250
     for kind, label, scheme, fn in entry_points():
         rng = ctx.rng("c16-fuzz", label)
         stream = "fuzz:" + label
